@@ -27,6 +27,12 @@ type Result struct {
 // Reachable computes the functions of /repo reachable from the roots (static calls,
 // closures, and every implementation in /repo of an invoked interface method).
 func Reachable(prog *load.Program, roots []*ssa.Function) map[*ssa.Function]bool {
+	return ReachableExcept(prog, roots, nil, nil)
+}
+
+// ReachableExcept: as Reachable, but does not traverse into the functions of stop, and
+// adds the extra edges (calls made through reflection, e.g. template helper functions).
+func ReachableExcept(prog *load.Program, roots []*ssa.Function, stop map[*ssa.Function]bool, extra map[*ssa.Function][]*ssa.Function) map[*ssa.Function]bool {
 	seen := map[*ssa.Function]bool{}
 	var work []*ssa.Function
 	push := func(f *ssa.Function) {
@@ -43,11 +49,35 @@ func Reachable(prog *load.Program, roots []*ssa.Function) map[*ssa.Function]bool
 	for len(work) > 0 {
 		fn := work[len(work)-1]
 		work = work[:len(work)-1]
+		if stop[fn] {
+			continue
+		}
+		for _, e := range extra[fn] {
+			push(e)
+		}
+		if !inRepo(fn) {
+			continue // library bodies are not traversed (see MakeInterface handling below for their call-backs)
+		}
 		for _, b := range fn.Blocks {
 			for _, in := range b.Instrs {
 				switch x := in.(type) {
 				case *ssa.MakeClosure:
 					push(x.Fn.(*ssa.Function))
+				case *ssa.MakeInterface:
+					// a value boxed into an interface may be handed to the library, which can
+					// call its String/Error/Less... methods: add the methods of /repo types
+					if !libraryInterface(x.Type()) {
+						continue
+					}
+					ms := prog.SSA.MethodSets.MethodSet(x.X.Type())
+					for i := 0; i < ms.Len(); i++ {
+						if m := prog.SSA.MethodValue(ms.At(i)); m != nil && inRepo(m) {
+							switch m.Name() {
+							case "String", "Error", "Less", "Len", "Swap", "MarshalJSON", "UnmarshalJSON", "Format", "GoString":
+								push(m)
+							}
+						}
+					}
 				case ssa.CallInstruction:
 					c := x.Common()
 					if c.IsInvoke() {
@@ -136,10 +166,16 @@ func calleeName(c *ssa.CallCommon) string {
 	return "dynamic"
 }
 
+// StdoutIsOutput: whether text printed on standard output is part of the output whose
+// determinism is claimed (aa-log: yes; prebuild: no, its output is the build directory).
+var StdoutIsOutput = true
+
 // order-sensitive sinks of the standard library
 func isSink(name string) bool {
 	switch {
-	case strings.HasPrefix(name, "fmt.Print"), strings.HasPrefix(name, "fmt.Fprint"):
+	case strings.HasPrefix(name, "fmt.Print"):
+		return StdoutIsOutput
+	case strings.HasPrefix(name, "fmt.Fprint"):
 		return true
 	case strings.HasPrefix(name, "(*strings.Builder).Write"), strings.HasPrefix(name, "(*bytes.Buffer).Write"):
 		return true
@@ -176,11 +212,14 @@ func (s *summaries) reaches(fn *ssa.Function) string {
 			}
 			c := ci.Common()
 			n := calleeName(c)
-			if isSink(n) {
+			if isSink(n) && !localReceiver(c) {
 				res = n
 				break
 			}
 			if f := c.StaticCallee(); f != nil && inRepo(f) && len(f.Blocks) > 0 {
+				if !StdoutIsOutput && f.Pkg != nil && strings.HasSuffix(f.Pkg.Pkg.Path(), "/pkg/logging") {
+					continue // console messages
+				}
 				if r := s.reaches(f); r != "" {
 					res = n + " -> " + r
 					break
@@ -379,7 +418,9 @@ func rangeEffects(fn *ssa.Function, header *ssa.BasicBlock, body map[*ssa.BasicB
 		for _, in := range b.Instrs {
 			switch x := in.(type) {
 			case *ssa.Return:
-				add("return from inside the range (the first key that passes the test wins)")
+				if !isErrorReturn(x) {
+					add("return from inside the range (the first key that passes the test wins)")
+				}
 			case *ssa.Phi:
 				if b != header {
 					continue
@@ -404,10 +445,16 @@ func rangeEffects(fn *ssa.Function, header *ssa.BasicBlock, body map[*ssa.BasicB
 				c := x.Common()
 				n := calleeName(c)
 				if isSink(n) {
+					if a := receiverAlloc(c); a != nil && body[a.Block()] {
+						continue // a builder/buffer created inside the iteration
+					}
 					add("call to " + n)
 					continue
 				}
 				if f := c.StaticCallee(); f != nil && inRepo(f) && len(f.Blocks) > 0 {
+					if !StdoutIsOutput && f.Pkg != nil && strings.HasSuffix(f.Pkg.Pkg.Path(), "/pkg/logging") {
+						continue
+					}
 					if r := sum.reaches(f); r != "" {
 						add("call to " + n + " which reaches " + r)
 					}
@@ -428,6 +475,9 @@ func rangeEffects(fn *ssa.Function, header *ssa.BasicBlock, body map[*ssa.BasicB
 		}
 		for _, s := range b.Succs {
 			if !body[s] {
+				if r, ok := s.Instrs[len(s.Instrs)-1].(*ssa.Return); ok && isErrorReturn(r) && len(s.Preds) == 1 {
+					continue // abort of the whole build on an error
+				}
 				add("early exit from the range (break/return) at block " + fmt.Sprint(b.Index))
 			}
 		}
@@ -536,4 +586,45 @@ func canonicalSort(name string, c *ssa.CallCommon) bool {
 		}
 	}
 	return false
+}
+
+// receiverAlloc: the *strings.Builder / *bytes.Buffer receiver of a Write* call when it is
+// a local variable of the calling function.
+func receiverAlloc(c *ssa.CallCommon) *ssa.Alloc {
+	if c.IsInvoke() || len(c.Args) == 0 {
+		return nil
+	}
+	a, _ := c.Args[0].(*ssa.Alloc)
+	return a
+}
+
+func localReceiver(c *ssa.CallCommon) bool { return receiverAlloc(c) != nil }
+
+// isErrorReturn: the function returns a non-nil error (its last result is of type error and
+// is not the nil constant): the caller aborts, no output depends on which key failed first.
+func isErrorReturn(r *ssa.Return) bool {
+	if len(r.Results) == 0 {
+		return false
+	}
+	last := r.Results[len(r.Results)-1]
+	if n, ok := last.Type().(*types.Named); !ok || n.Obj().Name() != "error" || n.Obj().Pkg() != nil {
+		return false
+	}
+	if c, ok := last.(*ssa.Const); ok && c.Value == nil {
+		return false
+	}
+	return true
+}
+
+// libraryInterface: any, error, or an interface type declared outside /repo (the kinds of
+// interface a value is boxed into when it is handed to the standard library).
+func libraryInterface(t types.Type) bool {
+	if n, ok := t.(*types.Named); ok {
+		if n.Obj().Pkg() == nil {
+			return true // error
+		}
+		return !strings.HasPrefix(n.Obj().Pkg().Path(), load.Module)
+	}
+	_, isIface := t.Underlying().(*types.Interface)
+	return isIface
 }
